@@ -147,11 +147,11 @@ DoubleOfItem(v, strict) ==
                                        <<105,110,102,105,110,105,116,121>>, <<43,105,110,102,105,110,105,116,121>>,
                                        <<45,105,110,102,105,110,105,116,121>>}
                  THEN NErr("verbose")
-                 ELSE IF Len(v.s) > 0 /\ \A i \in 1..Len(v.s) :
-                            IsDigit(v.s[i]) \/ v.s[i] \in {ChMinus, ChPlus, ChDot, ChE, ChEcap}
-                      THEN NErr(bad) ELSE IF FindByte(v.s, 95, 1) # 0 \/ FindByte(LowerSeq(v.s), 120, 1) # 0
-                                               \/ FindByte(LowerSeq(v.s), 112, 1) # 0
-                                          THEN NErr("opaque") ELSE NErr(bad)
+                 ELSE LET ls == LowerSeq(v.s)
+                          b  == IF Len(ls) > 0 /\ ls[1] \in {ChMinus, ChPlus} THEN Tail(ls) ELSE ls
+                      IN (* hex floats and digit separators: strconv accepts some; not decided *)
+                         IF (Len(b) >= 2 /\ b[1] = 48 /\ b[2] = 120) \/ FindByte(ls, 95, 1) # 0
+                         THEN NErr("opaque") ELSE NErr(bad)
                ELSE IF IsInf(p.d) THEN NErr("verbose") ELSE NOk(VNum("f", p.d))
        [] OTHER -> NErr("verbose")
 
@@ -237,11 +237,13 @@ DecimalMethod(n, v) ==
               (* number of integer digits of |rounded| (rounded = ri * 10^-s) *)
               mag    == BNAbs(ri)
               ndig   == IF BNIsZero(mag) THEN 0 ELSE Len(NatDigits(mag))
-              intdig == IF BNIsZero(mag) THEN 0 ELSE IF ndig - s > 0 THEN ndig - s ELSE 0
+              (* digits before the decimal point; zero or negative when the  *)
+              (* value is below 1 (leading zeros after the point count down) *)
+              intdig == ndig - s
               val    == IF s >= 0
                         THEN (IF s = 0 THEN BNRoundToDouble(ri) ELSE BNDivToDouble(ri, BNPow10(s)))
                         ELSE BNRoundToDouble(BNMul(ri, BNPow10(-s)))
-          IN IF intdig > p - s THEN NErr("verbose")
+          IN IF ~BNIsZero(mag) /\ intdig > p - s THEN NErr("verbose")
              ELSE IF IsInf(val) THEN NErr("verbose")
              ELSE NOk(VNum("f", val))
 =============================================================================
